@@ -376,6 +376,25 @@ def handbuilt() -> list[tuple[str, dict]]:
         O(0, "pre"), O(1, "Switch", V2), O(2, "Case", 1, 9), O(3, "Case", 2, 11), O(4, "Case", 3, 13), O(5, "Case", 4, 9), O(6, "Case", 5, 15),
         O(7, "Case", 6, 17), O(8, "Jump", 19), O(9, "body_a"), O(10, "Jump", 19), O(11, "body_b"), O(12, "Jump", 19), O(13, "body_c"),
         O(14, "Jump", 19), O(15, "body_d"), O(16, "Jump", 19), O(17, "body_e"), O(18, "Jump", 19), O(19, "after"), O(20, "End")])]}))
+    # twelve routines chained by cross-routine jumps: more than nine labels and routines in the fallback text
+    rs = [R([O(0, "a0"), O(1, "End")])]
+    for k_ in range(1, 12):
+        tgt = 2 * (((k_ + 3) % 11) + 1)  # first op of another routine (never routine 0)
+        rs.append(R([O(2 * k_, f"a{k_}", k_), O(2 * k_ + 1, "Jump", tgt)], type="ACTOR" if k_ % 3 == 0 else "GENERIC", linked_to=k_ if k_ % 3 == 0 else -1))
+    shapes.append(("twelve_routines_chained_by_jumps", {"routines": rs}))
+    # several jumps to one op; a jump from a later routine to the FIRST op of routine 0
+    shapes.append(("jumps_to_one_op_and_to_a_first_op", {"routines": [
+        R([O(0, "BranchBit", V, 1, 4), O(1, "Branch", V, 1, 4), O(2, "op_a"), O(3, "Jump", 4), O(4, "op_b"), O(5, "End")]),
+        R([O(6, "op_c"), O(7, "Jump", 0)], type="OBJECT", linked_to=2)]}))
+    # a call into another routine (the callee returns)
+    shapes.append(("call_into_another_routine", {"routines": [
+        R([O(0, "Call", 4), O(1, "op_a", 2 ** 31, -(2 ** 15)), O(2, "Call", 4), O(3, "End")]),
+        R([O(4, "sub_op"), O(5, "Return")], type="ACTOR", linked_to=1)]}))
+    # switch-case ops whose targets a fallback has to print as labels (the second routine jumps into a case body)
+    shapes.append(("case_ops_in_a_fallback", {"routines": [
+        R([O(0, "Switch", V), O(1, "Case", 1, 5), O(2, "Case", 2, 7), O(3, "CaseVariable", 0, V, 7), O(4, "Jump", 9), O(5, "body_a"), O(6, "Jump", 9),
+           O(7, "body_b"), O(8, "Jump", 9), O(9, "after"), O(10, "End")]),
+        R([O(11, "Jump", 7)], type="PERFORMER", linked_to=0)]}))
     # self loop and nested back edges
     shapes.append(("loops", {"routines": [R([
         O(0, "op_a"), O(1, "BranchBit", V, 0, 0), O(2, "op_b"), O(3, "BranchBit", V, 1, 2), O(4, "Jump", 0)])]}))
